@@ -701,7 +701,9 @@ def refine_droplet(
             _image_deviation, data_flat[free], bounds=bounds, **least_squares_params
         )
         data_flat[free] = result.x
-    droplet.data = unstructured_to_structured(data_flat, dtype=dtype)
+    # store the result as a record (like all other droplets), so attribute access to the
+    # data (e.g., when merging droplets) keeps working
+    droplet.data = unstructured_to_structured(data_flat, dtype=dtype).view(np.recarray)[()]
 
     # normalize the droplet position
     grid = phase_field.grid
